@@ -18,6 +18,8 @@ hmod!(pub(crate) sched, "sched.rs");
 hmod!(pub(crate) c08, "c08.rs");
 #[cfg(not(feature = "shuttle"))]
 hmod!(pub(crate) c08b, "c08b.rs");
+#[cfg(not(feature = "shuttle"))]
+hmod!(pub(crate) c15, "c15.rs");
 
 #[test]
 fn selftest() {
